@@ -7,7 +7,7 @@ CONSTANTS B = 4
   FixDone = TRUE
   FixDrain = TRUE
   FixHandover = TRUE
-  WriteCalls = FALSE
+  WriteCalls = TRUE
   FixFlushAll = TRUE
 SPECIFICATION Spec
 INVARIANTS C12_Log C12_NothingLost
